@@ -220,6 +220,56 @@ func H_c15_relay() {
 	verif_witness()
 }
 
+// H_c15_reader: once connected, what the client writes reaches the agent as socket-write
+// tasks with the client's socket id, unmodified and in order (the reader goroutine of the
+// "socks add" handler is run to completion: 1..3 segments of 1..3 arbitrary bytes, then the
+// client resets the connection): every queued WRITE task keeps its own bytes while later
+// segments are read, the reset queues one CLOSE task and removes the socket.
+func H_c15_reader() {
+	_, A, handle := verifSocksProxy()
+	c := &socks.VerifStreamConn{Phases: [][]byte{{5, 1, 0}, {5, 1, 0, 1, 10, 0, 0, 1, 0, 80}}, NoSplit: true}
+	before := len(A.JobQueue)
+	verif_drop_goroutines() // the listener goroutine of "socks add" (real TCP) is outside the model
+	handle(A.SocksSvr[0].Server, c)
+	verif_assume(len(A.SocksCli) == 1)
+	verif_assume(len(A.JobQueue) == before+1)
+	sid := A.SocksCli[0].SocketID
+	A.SocksCli[0].Connected = true // the agent reported a successful connect
+	nseg := 1 + nondet_choice("segments", 3)
+	var segs [][]byte
+	for k := 0; k < nseg; k++ {
+		segs = append(segs, nondet_bytes("segment", 1+nondet_choice("segment-len", 3)))
+	}
+	c.Phases = append(c.Phases, segs...)
+	c.Stream = true
+	n := verif_go_count()
+	verif_assert(n == 1 || n == -1, "one reader goroutine per connected client")
+	verif_run_goroutines()
+	verif_assert(len(A.JobQueue) == before+1+nseg+1, "one write task per segment, then one close task")
+	if len(A.JobQueue) == before+1+nseg+1 {
+		for k := 0; k < nseg; k++ {
+			job := A.JobQueue[before+1+k]
+			verif_assert(job.Command == COMMAND_SOCKET, "write task command")
+			verif_assert(len(job.Data) == 3, "write task has (sub-command, socket id, data)")
+			if len(job.Data) == 3 {
+				verif_assert(job.Data[0].(int) == SOCKET_COMMAND_WRITE, "write task sub-command")
+				verif_assert(job.Data[1].(int32) == sid, "write task carries the client's socket id")
+				verifSameBytesA(job.Data[2].([]byte), segs[k], "client bytes reach the agent unmodified and in order")
+			}
+		}
+		last := A.JobQueue[before+1+nseg]
+		verif_assert(len(last.Data) == 2, "close task has (sub-command, socket id)")
+		if len(last.Data) == 2 {
+			verif_assert(last.Data[0].(int) == SOCKET_COMMAND_CLOSE, "a failed client connection queues a close task")
+			verif_assert(last.Data[1].(int32) == sid, "close task carries the client's socket id")
+		}
+	}
+	verif_assert(A.SocksClientGet(int(sid)) == nil, "a failed client connection removes the socket from the table")
+	verif_assert(c.Closed, "a failed client connection is closed")
+	verif_no_locks_held("reader goroutine leaves no table mutex held")
+	verif_witness()
+}
+
 func A_atyp(k int) byte {
 	if k == 0 {
 		return 1
